@@ -411,7 +411,7 @@ def cart2geodetic(x, y, z, ellipsoid=None):
         h, lat, lon = cart2geocentric(x, y, z)
         h -= ellipsoid[0]
     else:
-        while (np.any(np.abs(B - B0) > 1e-10)):
+        while (np.any(np.abs(B - B0) > 1e-12)):
             N = ellipsoid[0] / np.sqrt(1 - e2 * np.sin(B0)**2)
             h = np.hypot(x, y) / np.cos(B0) - N
             B = B0.copy()
